@@ -6,6 +6,9 @@
    tcum <name> <int>*      -> none | <int>*      tensor recipe: CumSum
    thot <name> <int>       -> none | 0/1 string  tensor recipe: OneHot
    jarg max|min <int>*  /  jcum 0|1 <int>*  /  jhot <depth> <int>     JAX-side tensor semantics
+   oarg max|min 0|1 <int>* /  ocum <excl> <rev> <int>* / ohot <depth> <int>    ONNX tensor operators
+   sweep <name> <key> <ty> <arity 1|2>  -> <cases> <bad> x[,s];...   all values of an 8-bit dtype:
+                                           recipe (fixed mode) vs jaxSem, disagreeing inputs listed
    fix <q>                 -> int                candidate repair of lax.round
    bind <outs> <none|k>    -> unchanged | error | bound i:v,...   (outs: e.g. dn,DN ; D=drop N=needs)
 -/
@@ -62,6 +65,23 @@ def parseOuts (s : String) : List OutVar :=
     let cs := t.toList
     ⟨cs.getD 0 'd' == 'D', cs.getD 1 'n' == 'N'⟩
 
+def allInts (t : DT) : List Int := (List.range (2 ^ t.bits)).map fun (n : Nat) => (n : Int) + t.lo
+
+def sweep (r : Recipe) (key : String) (t : DT) (arity : Nat) : String := Id.run do
+  let vs := allInts t
+  let mut bad : Array String := #[]
+  let mut n := 0
+  if arity == 1 then
+    for x in vs do
+      n := n + 1
+      if r.eval .fixed [.i x] != jaxSem key t [.i x] then bad := bad.push s!"{x}"
+  else
+    for x in vs do
+      for y in vs do
+        n := n + 1
+        if r.eval .fixed [.i x, .i y] != jaxSem key t [.i x, .i y] then bad := bad.push s!"{x},{y}"
+  return s!"{n} {bad.size} " ++ ";".intercalate bad.toList
+
 def step (line : String) : String :=
   match line.trimAscii.toString.splitOn " " with
   | "op" :: md :: ty :: aty :: op :: vals =>
@@ -105,6 +125,24 @@ def step (line : String) : String :=
     match d.toNat?, x.toInt? with
     | some d, some i => String.ofList ((Jax.oneHot d i).map fun b => if b then '1' else '0')
     | _, _ => "bad-op"
+  | "oarg" :: which :: last :: xs =>
+    match ints xs with
+    | some l =>
+      match (if which == "max" then Onnx.argMax (last == "1") l else Onnx.argMin (last == "1") l) with
+      | some n => toString n | none => "none"
+    | none => "bad-op"
+  | "ocum" :: ex :: rev :: xs =>
+    match ints xs with
+    | some l => showInts (Onnx.cumSum (ex == "1") (rev == "1") l)
+    | none => "bad-op"
+  | ["ohot", d, x] =>
+    match d.toNat?, x.toInt? with
+    | some d, some i => String.ofList ((Onnx.oneHot d i).map fun b => if b then '1' else '0')
+    | _, _ => "bad-op"
+  | ["sweep", name, key, ty, ar] =>
+    match J2O.Gen.C01.recipes.find? (fun p => p.1 == name), parseDT ty, ar.toNat? with
+    | some (_, r), some t, some a => sweep r key t a
+    | _, _, _ => "bad-op"
   | ["fix", x] =>
     match parseVal x with
     | .q v => toString (roundAwayFix v)
